@@ -4791,18 +4791,411 @@ func checkC09ScopesDrained(c *Ctx) {
 		n++
 		okl := false
 		for cur := parents[call]; cur != nil; cur = parents[cur] {
-			if fs, ok := cur.(*ast.ForStmt); ok && fs.Cond != nil {
-				ast.Inspect(fs.Cond, func(m ast.Node) bool {
-					if sel, ok := m.(*ast.SelectorExpr); ok && fieldSel(info, sel, scopesF) {
-						okl = true
-					}
-					return true
-				})
+			if fs, ok := cur.(*ast.ForStmt); ok {
+				// `for len(scopes) > 0 {..}` or `for { if len(scopes) == 0 { break } .. }`
+				var conds []ast.Node
+				if fs.Cond != nil {
+					conds = append(conds, fs.Cond)
+				} else {
+					ast.Inspect(fs.Body, func(m ast.Node) bool {
+						if ifs, ok := m.(*ast.IfStmt); ok {
+							hasBreak := false
+							ast.Inspect(ifs.Body, func(q ast.Node) bool {
+								if br, ok := q.(*ast.BranchStmt); ok && br.Tok == token.BREAK {
+									hasBreak = true
+								}
+								return true
+							})
+							if hasBreak {
+								conds = append(conds, ifs.Cond)
+							}
+						}
+						return true
+					})
+				}
+				for _, cnd := range conds {
+					ast.Inspect(cnd, func(m ast.Node) bool {
+						if sel, ok := m.(*ast.SelectorExpr); ok && fieldSel(info, sel, scopesF) {
+							okl = true
+						}
+						return true
+					})
+				}
 			}
 		}
 		r.Check(okl, f.Name(), "scopes run before the statement is built", call.Pos(), "in a loop over Statement.scopes", "Execute runs the registered scopes once instead of until none are left: scopes registered by a scope never run, their conditions are missing - a chain whose only condition sits in a nested scope is rejected with ErrMissingWhereClause, or runs without that condition")
 	}
 	if n == 0 {
 		r.Bad(f.Name(), "scopes", f.Body.Pos(), "Execute no longer runs scopes; rule lost its anchor")
+	}
+}
+
+// C11.unscoped-nested: every statement a preload runs - also below an association-joined relation - is derived through
+// preloadDB; it carries the Unscoped of the handle it is derived from, unconditionally.
+func checkC11UnscopedNested(c *Ctx) {
+	p := c.P
+	r := c.Rule("C11.unscoped-nested", "preloadDB copies Statement.Unscoped from the handle it derives the preload session from", 1)
+	f := p.FuncDecl(pkgCallbacks, "preloadDB")
+	c.Touch(f)
+	info := f.Pkg.TypesInfo
+	unscopedF := p.Field(p.Named(pkgGorm, "Statement"), "Unscoped")
+	var param types.Object
+	if ps := f.Decl.Type.Params.List; len(ps) > 0 && len(ps[0].Names) > 0 {
+		param = info.Defs[ps[0].Names[0]]
+	}
+	okc := false
+	var pos token.Pos = f.Body.Pos()
+	for _, st := range f.Body.List {
+		fromParam := func(e ast.Expr) bool {
+			rs, ok := unparen(e).(*ast.SelectorExpr)
+			if !ok || !fieldSel(info, rs, unscopedF) {
+				return false
+			}
+			id := rootIdentOf(rs.X)
+			return id != nil && info.Uses[id] == param
+		}
+		// the session is fresh (NewDB): `if db.Statement.Unscoped { tx.Statement.Unscoped = true }` is the same copy
+		if ifs, ok := st.(*ast.IfStmt); ok && ifs.Init == nil && fromParam(ifs.Cond) && len(ifs.Body.List) == 1 {
+			if as, ok := ifs.Body.List[0].(*ast.AssignStmt); ok && len(as.Lhs) == 1 && len(as.Rhs) == 1 {
+				if ls, ok := unparen(as.Lhs[0]).(*ast.SelectorExpr); ok && fieldSel(info, ls, unscopedF) {
+					if b, isC := constBool(info, as.Rhs[0]); isC && b {
+						okc, pos = true, as.Pos()
+					}
+				}
+			}
+			continue
+		}
+		as, ok := st.(*ast.AssignStmt)
+		if !ok || len(as.Lhs) != 1 || len(as.Rhs) != 1 {
+			continue
+		}
+		if ls, ok := unparen(as.Lhs[0]).(*ast.SelectorExpr); ok && fieldSel(info, ls, unscopedF) && fromParam(as.Rhs[0]) {
+			okc, pos = true, as.Pos()
+		}
+	}
+	r.Check(okc, f.Name(), "Unscoped of the preload session", pos, "copied from the deriving handle, unconditionally", "preloadDB no longer copies Statement.Unscoped from the handle it derives from: preloads below a joined relation run scoped although the query is Unscoped - soft-deleted rows of that level are missing")
+}
+
+// C13.rollback-on-error: "a hook error is returned ... and everything the operation did is rolled back" - whatever the
+// error is.  Decided with guard facts in CommitOrRollbackTransaction: the Commit of the implicit transaction is under
+// the fact that the operation's Error is nil.
+func checkC13RollbackOnError(c *Ctx) {
+	p := c.P
+	r := c.Rule("C13.rollback-on-error", "the implicit transaction is committed only when the operation's Error is nil (every hook error rolls back)", 1)
+	f := p.FuncDecl(pkgCallbacks, "CommitOrRollbackTransaction")
+	c.Touch(f)
+	info := f.Pkg.TypesInfo
+	commitM := p.Method(p.Named(pkgGorm, "DB"), "Commit")
+	gs := p.Guards(f, nil)
+	n := 0
+	for _, call := range callsIn(f) {
+		if fn, _ := typeutil.Callee(info, call).(*types.Func); fn != commitM {
+			continue
+		}
+		n++
+		recv := canon(info, call.Fun.(*ast.SelectorExpr).X)
+		facts, live := gs.At(call.Pos())
+		okf := facts.Has("T:"+recv+".Error == nil") || facts.Has("F:"+recv+".Error != nil") || facts.Has("N:"+recv+".Error")
+		r.Check(!live || okf, f.Name(), "commit of the implicit transaction", call.Pos(), "only under Error == nil", "CommitOrRollbackTransaction commits on a path where the operation's Error may be non-nil: a hook (or statement) error of that kind is returned to the caller while everything the operation wrote stays committed", "facts: "+strings.Join(facts.List(), ", "))
+	}
+	if n == 0 {
+		r.Bad(f.Name(), "commit", f.Body.Pos(), "CommitOrRollbackTransaction no longer commits; rule lost its anchor")
+	}
+}
+
+// C12.target-keys-kept: association Append/Replace save their targets with one batch INSERT ... ON CONFLICT; a target
+// that already has a primary key keeps it only if the key column is part of that INSERT.  The per-field list of
+// explicitly given default-column values is therefore allocated when the FIRST row that has such a value is met -
+// whichever row that is: the allocation is guarded by the emptiness of the list itself, not by the row index.
+func checkC12TargetKeysKept(c *Ctx) {
+	p := c.P
+	r := c.Rule("C12.target-keys-kept", "batch create: the list of explicitly given default-column values (e.g. keys of existing targets) is allocated on first need, not by row position", 1)
+	f := p.FuncDecl(pkgCallbacks, "ConvertToCreateValues")
+	c.Touch(f)
+	info := f.Pkg.TypesInfo
+	parents := parentMap(f.Body)
+	n := 0
+	ast.Inspect(f.Body, func(x ast.Node) bool {
+		as, ok := x.(*ast.AssignStmt)
+		if !ok || len(as.Lhs) != 1 || len(as.Rhs) != 1 {
+			return true
+		}
+		ix, ok := unparen(as.Lhs[0]).(*ast.IndexExpr)
+		if !ok {
+			return true
+		}
+		mt, ok := info.TypeOf(ix.X).Underlying().(*types.Map)
+		if !ok {
+			return true
+		}
+		if _, isSl := mt.Elem().Underlying().(*types.Slice); !isSl {
+			return true
+		}
+		ce, ok := unparen(as.Rhs[0]).(*ast.CallExpr)
+		if !ok {
+			return true
+		}
+		if id, ok := ce.Fun.(*ast.Ident); !ok || id.Name != "make" {
+			return true
+		}
+		// inside a row loop?
+		var loop *ast.ForStmt
+		for cur := parents[as]; cur != nil && loop == nil; cur = parents[cur] {
+			if fs, ok := cur.(*ast.ForStmt); ok {
+				loop = fs
+			}
+		}
+		if loop == nil {
+			return true
+		}
+		n++
+		m := canon(info, ix.X)
+		okc := false
+		if ifs, ok := parents[parents[as]].(*ast.IfStmt); ok && containsNode(ifs.Body, as) {
+			// whenever the list is empty, the allocation runs - whatever else the condition mentions
+			bf := boolTable(info, ifs.Cond)
+			fixed := map[string]bool{}
+			for _, a := range bf.atoms {
+				if a == "len("+m+"["+canon(info, ix.Index)+"]) == 0" || a == m+"["+canon(info, ix.Index)+"] == nil" {
+					fixed[a] = true
+				}
+			}
+			if init, ok := ifs.Init.(*ast.AssignStmt); ok && len(init.Lhs) == 2 && len(init.Rhs) == 1 {
+				if lx, ok := unparen(init.Rhs[0]).(*ast.IndexExpr); ok && canon(info, lx) == canon(info, ix) {
+					if id, ok := init.Lhs[1].(*ast.Ident); ok {
+						fixed[id.Name] = false
+					}
+				}
+			}
+			if len(fixed) > 0 {
+				okc, _ = bf.forAll(fixed, true)
+			}
+		}
+		r.Check(okc, f.Name(), "allocation of "+m+"[..]", as.Pos(), "runs whenever the list itself is still empty", "the per-field list of explicitly given values is allocated by row position (or unguarded) instead of on first need: when the first row has no value for a default column (a new target before an existing one), the column is left out of the INSERT for ALL rows - the existing target loses its key and a copy is inserted")
+		return true
+	})
+	if n == 0 {
+		r.Bad(f.Name(), "explicit default values", f.Body.Pos(), "ConvertToCreateValues no longer collects explicitly given default-column values per row; rule lost its anchor")
+	}
+}
+
+// C14.begin-no-leak: PreparedStmtDB.BeginTx hands every transaction the driver began to its caller (wrapped), or
+// rolls it back: no return after a Begin drops it.  Decided by path enumeration: on every path through the driver's
+// BeginTx call, the return mentions the begun transaction or a Rollback of it precedes.
+func checkC14BeginNoLeak(c *Ctx) {
+	p := c.P
+	r := c.Rule("C14.begin-no-leak", "PreparedStmtDB.BeginTx returns every transaction it began (or rolls it back)", 2)
+	f := p.MethodDecl(pkgGorm, "PreparedStmtDB", "BeginTx")
+	c.Touch(f)
+	info := f.Pkg.TypesInfo
+	type begun struct {
+		as   *ast.AssignStmt
+		objs map[types.Object]bool
+		err  string
+	}
+	var begins []*begun
+	ast.Inspect(f.Body, func(n ast.Node) bool {
+		as, ok := n.(*ast.AssignStmt)
+		if !ok || len(as.Rhs) != 1 || len(as.Lhs) != 2 {
+			return true
+		}
+		if ce, ok := unparen(as.Rhs[0]).(*ast.CallExpr); ok {
+			if sel, ok := ce.Fun.(*ast.SelectorExpr); ok && sel.Sel.Name == "BeginTx" {
+				if id, ok := as.Lhs[0].(*ast.Ident); ok {
+					b := &begun{as: as, objs: map[types.Object]bool{info.ObjectOf(id): true}}
+					if e, ok := as.Lhs[1].(*ast.Ident); ok {
+						b.err = e.Name
+					}
+					begins = append(begins, b)
+				}
+			}
+		}
+		return true
+	})
+	if len(begins) == 0 {
+		r.Bad(f.Name(), "driver Begin", f.Body.Pos(), "BeginTx no longer keeps the transaction the driver began; rule lost its anchor")
+		return
+	}
+	paths, ok := p.EnumPaths(f, nil, 2000)
+	if !ok {
+		r.Unknown(f.Name(), "paths", f.Body.Pos(), "too many paths")
+		return
+	}
+	for _, b := range begins {
+		mentions := func(n ast.Node) bool {
+			hit := false
+			ast.Inspect(n, func(m ast.Node) bool {
+				if id, ok := m.(*ast.Ident); ok && b.objs[info.Uses[id]] {
+					hit = true
+				}
+				return true
+			})
+			return hit
+		}
+		// values derived by a type assertion / conversion of the begun pool (`tx, ok := connPool.(Tx)`)
+		assertOK := map[string]bool{}
+		for changed := true; changed; {
+			changed = false
+			ast.Inspect(f.Body, func(n ast.Node) bool {
+				as, ok := n.(*ast.AssignStmt)
+				if !ok || len(as.Rhs) != 1 || as == b.as {
+					return true
+				}
+				if ta, ok := unparen(as.Rhs[0]).(*ast.TypeAssertExpr); ok && mentions(ta.X) {
+					if id, ok := as.Lhs[0].(*ast.Ident); ok && !b.objs[info.ObjectOf(id)] {
+						b.objs[info.ObjectOf(id)] = true
+						changed = true
+					}
+					if len(as.Lhs) == 2 {
+						assertOK[fFalse(fIs(canon(info, ta)))] = true
+					}
+				}
+				return true
+			})
+		}
+		bad, seen := 0, 0
+		var where token.Pos = b.as.Pos()
+		for _, pr := range paths {
+			at := -1
+			for i, nd := range pr.Nodes {
+				if nd == ast.Node(b.as) || containsNode(nd, b.as) {
+					at = i
+				}
+			}
+			if at < 0 {
+				continue
+			}
+			seen++
+			okp := pr.Return != nil && mentions(pr.Return)
+			// nothing was begun (the driver failed), or what was begun is no transaction that could be rolled back
+			if b.err != "" && (pr.Facts.Has(fNonNil(b.err)) || pr.Facts.Has("T:"+b.err+" != nil") || pr.Facts.Has("F:"+b.err+" == nil")) {
+				okp = true
+			}
+			for k := range assertOK {
+				if pr.Facts.Has(k) {
+					okp = true
+				}
+			}
+			for _, nd := range pr.Nodes[at+1:] {
+				ast.Inspect(nd, func(m ast.Node) bool {
+					if ce, ok := m.(*ast.CallExpr); ok {
+						if sel, ok := ce.Fun.(*ast.SelectorExpr); ok && sel.Sel.Name == "Rollback" && mentions(sel.X) {
+							okp = true
+						}
+					}
+					return true
+				})
+			}
+			if !okp {
+				bad++
+				where = pr.Exit
+			}
+		}
+		r.Check(seen > 0 && bad == 0, f.Name(), "transaction begun by "+types.ExprString(b.as.Rhs[0]), where, "returned (wrapped) or rolled back on every path", "BeginTx has a path that returns without the transaction the driver just began and without rolling it back: the *sql.Tx and its connection are leaked - with a bounded pool later operations block forever")
+	}
+}
+
+// C15.pluck-select: Pluck reports the values the chain's own select list yields; it adds its column as SELECT only
+// when the chain has none (AddClauseIfNotExists) - a select expression with bound values given earlier stays.
+func checkC15PluckSelect(c *Ctx) {
+	p := c.P
+	r := c.Rule("C15.pluck-select", "Pluck adds its column as the SELECT clause only if the chain has none", 1)
+	f := p.MethodDecl(pkgGorm, "DB", "Pluck")
+	c.Touch(f)
+	info := f.Pkg.TypesInfo
+	stmtT := p.Named(pkgGorm, "Statement")
+	addClause, addIfNot := p.Method(stmtT, "AddClause"), p.Method(stmtT, "AddClauseIfNotExists")
+	selT := p.Named(pkgClause, "Select")
+	n := 0
+	for _, call := range callsIn(f) {
+		fn, _ := typeutil.Callee(info, call).(*types.Func)
+		if (fn != addClause && fn != addIfNot) || len(call.Args) != 1 || !types.Identical(info.TypeOf(call.Args[0]), selT) {
+			continue
+		}
+		n++
+		r.Check(fn == addIfNot, f.Name(), "SELECT of the plucked column", call.Pos(), "only if the chain has no select list", "Pluck overwrites the chain's SELECT clause with its plain column: a select expression given with bound values (Select(\"age + ? AS age\", 100)) is replaced, and Pluck reports other values than Find / Scan on the same chain (or fails on the alias)")
+	}
+	if n == 0 {
+		r.Bad(f.Name(), "SELECT", f.Body.Pos(), "Pluck no longer adds a SELECT clause; rule lost its anchor")
+	}
+}
+
+// C19.foc-handle: FirstOrCreate's look-up and its Create are two statements; the Create runs on the chain's handle,
+// not on the handle that has just executed the look-up (which, in a dry run, still holds the look-up's SQL - the
+// create callback then builds nothing and DryRun/ToSQL show the SELECT while a real run sends the INSERT).
+func checkC19FOCHandle(c *Ctx, r *Rule) {
+	p := c.P
+	f := p.MethodDecl(pkgGorm, "DB", "FirstOrCreate")
+	c.Touch(f)
+	info := f.Pkg.TypesInfo
+	dbT := p.Named(pkgGorm, "DB")
+	createM := p.Method(dbT, "Create")
+	isLookup := map[*types.Func]bool{p.Method(dbT, "First"): true, p.Method(dbT, "Find"): true, p.Method(dbT, "Take"): true, p.Method(dbT, "Last"): true}
+	var lookup types.Object
+	ast.Inspect(f.Body, func(n ast.Node) bool {
+		as, ok := n.(*ast.AssignStmt)
+		if !ok || len(as.Lhs) != 1 || len(as.Rhs) != 1 {
+			return true
+		}
+		if ce, ok := unparen(as.Rhs[0]).(*ast.CallExpr); ok {
+			if fn, _ := typeutil.Callee(info, ce).(*types.Func); isLookup[fn] {
+				if id, ok := as.Lhs[0].(*ast.Ident); ok {
+					lookup = info.ObjectOf(id)
+				}
+			}
+		}
+		// `if result := q.First(dest); ...`
+		return true
+	})
+	ast.Inspect(f.Body, func(n ast.Node) bool {
+		if ifs, ok := n.(*ast.IfStmt); ok {
+			if as, ok := ifs.Init.(*ast.AssignStmt); ok && len(as.Lhs) == 1 && len(as.Rhs) == 1 {
+				if ce, ok := unparen(as.Rhs[0]).(*ast.CallExpr); ok {
+					if fn, _ := typeutil.Callee(info, ce).(*types.Func); isLookup[fn] {
+						if id, ok := as.Lhs[0].(*ast.Ident); ok {
+							lookup = info.ObjectOf(id)
+						}
+					}
+				}
+			}
+		}
+		return true
+	})
+	n := 0
+	for _, call := range callsIn(f) {
+		if fn, _ := typeutil.Callee(info, call).(*types.Func); fn != createM {
+			continue
+		}
+		n++
+		root := rootIdentOf(call.Fun.(*ast.SelectorExpr).X)
+		r.Check(root != nil && lookup != nil && info.ObjectOf(root) != lookup, f.Name(), "handle of the insert", call.Pos(), "the chain's handle, not the look-up's", "FirstOrCreate runs its Create on the handle that has just executed the look-up: in a dry run that handle still holds the SELECT, the create callback builds nothing, and DryRun / ToSQL expose the SELECT while a real run sends the INSERT")
+	}
+	if n == 0 || lookup == nil {
+		r.Bad(f.Name(), "look-up / create", f.Body.Pos(), "FirstOrCreate no longer has a First look-up and a Create; rule lost its anchor")
+	}
+}
+
+// C20.check-expr: a named CHECK constraint `check:name,expr` keeps its whole expression - everything after the first
+// comma (expressions contain commas: IN (..), coalesce(..)).  Decided in ParseCheckConstraints: no CheckConstraint
+// literal takes a single element of the comma-split tag as its Constraint.
+func checkC20CheckExpr(c *Ctx) {
+	p := c.P
+	r := c.Rule("C20.check-expr", "ParseCheckConstraints keeps the whole expression of a check (never one element of the comma split)", 1)
+	f := p.MethodDecl(pkgSchema, "Schema", "ParseCheckConstraints")
+	c.Touch(f)
+	info := f.Pkg.TypesInfo
+	chkT := p.Named(pkgSchema, "CheckConstraint")
+	n := 0
+	for _, lit := range litsOfType(info, f.Body, chkT, true) {
+		v := compositeField(lit, "Constraint")
+		if v == nil {
+			continue
+		}
+		n++
+		_, isIndex := unparen(v).(*ast.IndexExpr)
+		r.Check(!isIndex, f.Name(), "expression of the check", lit.Pos(), "the whole remainder of the tag", "the Constraint of a parsed CHECK is a single element of the comma-split tag (`"+types.ExprString(v)+"`): an expression containing a comma is cut at it - CREATE TABLE / the migration of that model fails or creates a different constraint")
+	}
+	if n == 0 {
+		r.Bad(f.Name(), "check literals", f.Body.Pos(), "ParseCheckConstraints builds no CheckConstraint; rule lost its anchor")
 	}
 }
